@@ -160,8 +160,9 @@ fn c02(quick: bool) -> PropRun {
             scs.push(spec("C02.three", cfg, s, env, if quick { 2 } else { 3 }, oracles | O_C01));
         }
     }
+    scs.extend(crate::props_ew::survive_scenarios(quick, false));
     PropRun { level: "model_checking", scenarios: scs, units: vec![], replay_case: None, summary: lw_summary(
-        "fault prefix (deviations in the first dev_rounds rounds) followed by a fair network; safety on every round, bounded liveness at the horizon T_live = 300 s of virtual time (fixed a priori from protocol constants, never calibrated on the implementation)",
+        "fault prefix (deviations in the first dev_rounds rounds) followed by a fair network; safety on every round, bounded liveness at the horizon T_live = 300 s of virtual time (fixed a priori from protocol constants, never calibrated on the implementation); plus the user-visible form on real Client/Server objects with default time-outs: single-frame faults and pauses of at most 2 s must never end in an Error event, and all Reliable packets arrive within 45 s",
         json!({"d": d, "dev_rounds": dev, "T_live_ms": 300_000, "fair_cadence_ms": 20, "blackouts": "one or both directions, 3..3000 rounds, at every round of the prefix"}),
         &[A_LW[0], A_LW[1], A_LW[3], "bounded liveness: a change that slows recovery but stays inside T_live is not detected; a permanent stall is"]) }
 }
@@ -340,6 +341,7 @@ fn c11(quick: bool) -> PropRun {
             scs.push(lw_scenario(sp));
         }
     }
+    scs.extend(crate::props_ew::survive_scenarios(quick, true));
     PropRun { level: "model_checking", scenarios: scs, units: vec![], replay_case: None, summary: lw_summary(
         "fault phase (one or two deviations: a blackout of 5/100/500/3000 rounds in one or both directions starting at any round of the window, a lasting change of latency x10/x25 or of the step cadence x10/x50, single losses, pauses of 2 and 10 s) followed by a fair network; probe packets of every mode (50 B to 2 kB, both directions) submitted after the longest fault must all be delivered, earlier Reliable packets too, within T_live = 300 s of steps (fixed a priori); data still pending at the horizon must at least have made progress since the probes were submitted",
         json!({"d": if quick { 1 } else { 2 }, "blackout_rounds": [5, 100, 500, 3000], "directions": ["a->b", "b->a", "both"], "shifts": ["latency 1->10 rounds", "latency 1->25 rounds", "cadence ->200 ms", "cadence ->1000 ms"], "fills": ["packet window 4 filled 3x", "frame window 4 filled", "receive allocation of 3 fragments exhausted", "default 4096 windows, both directions", "idle"], "probe_round": probe_round, "T_live_rounds": T_LIVE_ROUNDS}),
